@@ -5,7 +5,7 @@
 set -u
 ID=$1; PROP=$2; TIER=${3:-quick}
 S=/verif/seeded/$ID
-cd /verif
+cd /verif; touch /tmp/repo.busy; trap "rm -f /tmp/repo.busy" EXIT
 if [ -n "$(git -C /repo status --porcelain --untracked-files=no | grep -v flatpak-summary.dump)" ]; then echo "/repo is not clean"; exit 9; fi
 cp evidence/$PROP.json /tmp/evidence-$PROP.bak 2>/dev/null
 ls replays > /tmp/replays-before.txt
